@@ -13,11 +13,14 @@
     Index.write → indexWrite                 Index.read (+ SHA1Reader.check_sha) → indexRead
     index_entry_from_stat → entryFromStat
 
-  The model describes the code that exists, defects included: the name length is OR-ed into the
-  flags without saturation, `mode/uid/gid/size` are packed unmasked (struct.error above 2^32-1),
-  short reads of a name or of padding are silent, an extension signature that is not four
-  upper-case letters ends the extension loop *after* its four bytes were hashed, and `check_sha`
-  with `allow_empty` accepts any trailer that is not exactly 20 bytes long.
+  The model describes the code that exists (after the C11 repair series): the name length saturates
+  at 0xFFF and saturated names are read to their NUL, size and times are masked to 32 bits like
+  dev/ino, `mode/uid/gid` are packed unmasked (struct.error above 2^32-1), the v4 varint is git's
+  offset varint, every extension signature is parsed (an unknown one must start with A..Z), and
+  `check_sha` accepts only the digest or, with `allow_empty`, 20 zero bytes.  Remaining oddities are
+  modelled too: short reads of a non-saturated name or of padding are silent (the trailer check then
+  fails), `Index.write` drops extensions with an empty payload.  The pre-repair behaviour is kept in
+  `namespace Old` for regression witnesses.
 
   Python integers are `Nat` here: negative field values are outside the model (the harness never
   feeds them to the model; the direct oracle does exercise them on the real code).  Float times are
@@ -42,11 +45,12 @@ inductive IErr where
   | assertion     -- AssertionError
   | checksum      -- ChecksumMismatch
   | unsupported   -- UnsupportedIndexFormat
+  | unsupportedExt -- UnsupportedIndexExtension
   deriving DecidableEq, Repr, Inhabited
 
 def IErr.toString : IErr → String
   | .struct => "struct" | .value => "value" | .assertion => "assertion"
-  | .checksum => "checksum" | .unsupported => "unsupported"
+  | .checksum => "checksum" | .unsupported => "unsupported" | .unsupportedExt => "unsupportedext"
 
 instance : ToString IErr := ⟨IErr.toString⟩
 
@@ -79,40 +83,43 @@ def readH : Bytes → R (Nat × Bytes)
 /-- Python `x & ~m` on a non-negative `x`. -/
 def clearBits (x m : Nat) : Nat := x - (x &&& m)
 
-/-! ## v4 varint (`_encode_varint`, `_decode_varint`, stream reader) -/
+/-! ## v4 varint (`_encode_varint`, `_decode_varint`, stream reader): git's offset varint -/
 
-/-- `_encode_varint`: little-endian base-128, continuation bit on all but the last byte.
-(`value == 0` gives `b"\x00"`: the first branch.)  Written with `%` and `/` for `& 0x7F` and `>> 7`;
-the three constants are read from the source.  Structural on a fuel argument (so that `decide` can
-evaluate it); `fuel = n` always suffices because every step divides by at least 2. -/
-def encodeVarintAux : Nat → Nat → Bytes
-  | 0, n => [UInt8.ofNat (n % (varintEncMask + 1))]
-  | fuel + 1, n =>
-    if n / 2 ^ varintEncShift = 0 then [UInt8.ofNat (n % (varintEncMask + 1))]
-    else UInt8.ofNat (n % (varintEncMask + 1) + varintEncCont) :: encodeVarintAux fuel (n / 2 ^ varintEncShift)
+/-- The loop of `_encode_varint`:
+`value >>= S; while value > 0: value -= 1; result.append(C | (value & M)); value >>= S`, with
+`result` kept reversed (the code reverses it at the end).  `v` is the value *before* the shift.
+Structural on a fuel argument (so that `decide` can evaluate it); `fuel > v` always suffices. -/
+def encodeVarintAux : Nat → Nat → Bytes → Bytes
+  | 0, _, acc => acc
+  | fuel + 1, v, acc =>
+    if v / 2 ^ varintEncShift = 0 then acc
+    else
+      let v' := v / 2 ^ varintEncShift - 1
+      encodeVarintAux fuel v' (UInt8.ofNat (varintEncCont + v' % (varintEncMask + 1)) :: acc)
 
-def encodeVarint (n : Nat) : Bytes := encodeVarintAux n n
+/-- `_encode_varint` (varint.c `encode_varint`): most significant 7-bit group first, continuation bit
+on all but the last byte, every group but the last stored minus one. -/
+def encodeVarint (n : Nat) : Bytes :=
+  encodeVarintAux (n + 1) n [UInt8.ofNat (n % (varintEncMask + 1))]
 
-/-- The varint loop of `_decompress_path_from_stream`: one byte at a time, `ValueError` at EOF. -/
-def readVarintAux (shift acc : Nat) : Bytes → R (Nat × Bytes)
+/-- The varint loop of `_decompress_path_from_stream`: `remove_len = ((remove_len + 1) << S) | (byte & M)`
+starting from -1; the state `v` is `remove_len + 1`.  `ValueError` at EOF. -/
+def readVarintAux (v : Nat) : Bytes → R (Nat × Bytes)
   | [] => .error .value
   | b :: rest =>
-    let acc' := acc + (b.toNat % (varintStreamMask + 1)) * 2 ^ shift
-    if b.toNat / varintStreamCont % 2 = 0 then .ok (acc', rest)
-    else readVarintAux (shift + varintStreamShift) acc' rest
+    let x := v * 2 ^ varintStreamShift + b.toNat % (varintStreamMask + 1)
+    if b.toNat / varintStreamCont % 2 = 0 then .ok (x, rest) else readVarintAux (x + 1) rest
 
-def readVarint (d : Bytes) : R (Nat × Bytes) := readVarintAux 0 0 d
+def readVarint (d : Bytes) : R (Nat × Bytes) := readVarintAux 0 d
 
-/-- `_decode_varint(data, offset)` on `data[offset:]`: never raises; at the end of the data it
-returns what it has. -/
-def decodeVarintAux (shift acc : Nat) : Bytes → Nat × Bytes
-  | [] => (acc, [])
+/-- `_decode_varint(data, offset)` on `data[offset:]`: same arithmetic, `ValueError` at the end of the data. -/
+def decodeVarintAux (v : Nat) : Bytes → R (Nat × Bytes)
+  | [] => .error .value
   | b :: rest =>
-    let acc' := acc + (b.toNat % (varintDecMask + 1)) * 2 ^ shift
-    if b.toNat / varintDecCont % 2 = 0 then (acc', rest)
-    else decodeVarintAux (shift + varintDecShift) acc' rest
+    let x := v * 2 ^ varintDecShift + b.toNat % (varintDecMask + 1)
+    if b.toNat / varintDecCont % 2 = 0 then .ok (x, rest) else decodeVarintAux (x + 1) rest
 
-def decodeVarint (d : Bytes) : Nat × Bytes := decodeVarintAux 0 0 d
+def decodeVarint (d : Bytes) : R (Nat × Bytes) := decodeVarintAux 0 d
 
 /-! ## v4 path prefix compression -/
 
@@ -148,16 +155,17 @@ def decompressPathStream (prev d : Bytes) : R (Bytes × Bytes) :=
       | .error e => .error e
       | .ok p => .ok (p, d2)
 
-/-- `_decompress_path(data, offset, previous_path)` on `data[offset:]` (non-stream variant: the
-varint decoder does not raise at the end of the data). -/
+/-- `_decompress_path(data, offset, previous_path)` on `data[offset:]` (buffer variant). -/
 def decompressPath (prev d : Bytes) : R (Bytes × Bytes) :=
-  let (rm, d1) := decodeVarint d
-  match splitNul d1 with
-  | none => .error .value
-  | some (suffix, d2) =>
-    match rebuildPath prev rm suffix with
-    | .error e => .error e
-    | .ok p => .ok (p, d2)
+  match decodeVarint d with
+  | .error e => .error e
+  | .ok (rm, d1) =>
+    match splitNul d1 with
+    | none => .error .value
+    | some (suffix, d2) =>
+      match rebuildPath prev rm suffix with
+      | .error e => .error e
+      | .ok p => .ok (p, d2)
 
 /-! ## entries -/
 
@@ -183,21 +191,23 @@ structure Entry where
   ext : Nat
   deriving DecidableEq, Repr, Inhabited
 
-/-- `write_cache_time`. -/
+def maskOpt (m : Option Nat) (x : Nat) : Nat :=
+  match m with
+  | some m => x &&& m
+  | none => x
+
+/-- `write_cache_time`: `struct.pack(">LL", secs & MASK, nsecs & MASK)`. -/
 def packTime : Time → R Bytes
-  | .int t => do let a ← packL t; let b ← packL 0; pure (a ++ b)
-  | .pair s n => do let a ← packL s; let b ← packL n; pure (a ++ b)
+  | .int t => do
+    let a ← packL (maskOpt timeSecMask t); let b ← packL (maskOpt timeNsecMask 0); pure (a ++ b)
+  | .pair s n => do
+    let a ← packL (maskOpt timeSecMask s); let b ← packL (maskOpt timeNsecMask n); pure (a ++ b)
 
 /-- `read_cache_time`: `struct.unpack(">LL", f.read(8))`. -/
 def readTime (d : Bytes) : R (Time × Bytes) := do
   let (s, d1) ← readL d
   let (n, d2) ← readL d1
   pure (.pair s n, d2)
-
-def maskOpt (m : Option Nat) (x : Nat) : Nat :=
-  match m with
-  | some m => x &&& m
-  | none => x
 
 /-- `struct.pack("20s", b)`: NUL-padded / truncated to 20 bytes. -/
 def pack20 (b : Bytes) : Bytes := (b ++ List.replicate 20 0).take 20
@@ -220,10 +230,10 @@ def padLenWrite (n : Nat) : Nat := padLenWith padAddWrite padMaskWrite n
 def padLenRead (n : Nat) : Nat := padLenWith padAddRead padMaskRead n
 
 /-- The on-disk flags word of `write_cache_entry`:
-`flags = len(entry.name) | (entry.flags & ~FLAG_NAMEMASK)`, then `|= FLAG_EXTENDED` when there are
-extended flags.  No saturation of the length at 0xFFF. -/
+`flags = min(len(entry.name), FLAG_NAMEMASK) | (entry.flags & ~FLAG_NAMEMASK)`, then `|= FLAG_EXTENDED`
+when there are extended flags.  The 12-bit length saturates at 0xFFF. -/
 def diskFlags (e : Entry) : Nat :=
-  let f := e.name.length ||| clearBits e.flags flagNameMask
+  let f := min e.name.length flagNameMask ||| clearBits e.flags flagNameMask
   if e.ext ≠ 0 then f ||| flagExtended else f
 
 /-- `write_cache_entry(f, entry, version, previous_path)`: the bytes written, or the exception. -/
@@ -254,8 +264,10 @@ def readFixed (d : Bytes) : R ((Nat × Nat × Nat × Nat × Nat × Nat) × Bytes
   pure ((dev, ino, mode, uid, gid, size), sha, flags, d)
 
 /-- `read_cache_entry(f, version, previous_path)` on the unread part `d` of the stream:
-the entry and the new unread part.  Short reads of the name and of the padding are silent, as in
-the code (`f.read(n)` returns what is there). -/
+the entry and the new unread part.  Below version 4 a name whose 12-bit length field is saturated is read
+up to its NUL terminator (`ValueError` when there is none); the padding is computed from the end of the
+name.  A short read of a non-saturated name or of the padding is still silent (`f.read(n)` returns what
+is there) — the trailer check catches it. -/
 def readCacheEntry (v : Nat) (prev : Bytes) (d : Bytes) : R (Entry × Bytes) := do
   let (ct, d1) ← readTime d
   let (mt, d2) ← readTime d1
@@ -269,18 +281,20 @@ def readCacheEntry (v : Nat) (prev : Bytes) (d : Bytes) : R (Entry × Bytes) := 
       flags := clearBits flags flagNameMask, ext }
   if v ≥ rCompressFrom then do
     let (name, d5) ← decompressPathStream prev d4
-    if v < rPadBelow then
-      let n := d.length - d5.length
-      pure (mk name, d5.drop (padLenRead n))
-    else pure (mk name, d5)
+    pure (mk name, d5)
   else
     let k := flags &&& flagNameMask
-    let name := d4.take k
+    let name0 := d4.take k
     let d5 := d4.drop k
-    if v < rPadBelow then
-      let n := d.length - d5.length
-      pure (mk name, d5.drop (padLenRead n))
-    else pure (mk name, d5)
+    if k = flagNameMask then
+      match splitNul d5 with
+      | none => .error .value
+      | some (more, d6) =>
+        let nameEnd := d.length - d5.length + more.length
+        pure (mk (name0 ++ more), d6.drop (padLenRead nameEnd - 1))
+    else
+      let nameEnd := d.length - d5.length
+      pure (mk name0, d5.drop (padLenRead nameEnd))
 
 /-! ## whole index: writer -/
 
@@ -426,36 +440,44 @@ def isSigByte (b : UInt8) : Bool := sigLo ≤ b.toNat && b.toNat ≤ sigHi
 def fromRaw (sig data : Bytes) : Ext :=
   if dropPayloadSigs.contains sig then (sig, []) else (sig, data)
 
-/-- The extension loop of `read_index_dict_with_version` on the unread part `d`.
-Returns the extensions, the part left unread, and the bytes that were read (hence hashed by
-`SHA1Reader.read`) and then un-read with `f.seek(-4, 1)`.  `fuel ≥ d.length` suffices. -/
-def readExts : Nat → Bytes → List Ext × Bytes × Bytes
-  | 0, d => ([], d, [])
+/-- `LO <= signature[0] <= HI`: the extension is optional and may be carried along unparsed. -/
+def firstIsOptional : Bytes → Bool
+  | b :: _ => isSigByte b
+  | [] => false
+
+/-- The extension loop of `read_index_dict_with_version` on the unread part `d`: every 4-byte signature
+is parsed; an extension `from_raw` leaves as a plain `IndexExtension` (unknown signature) whose signature
+does not start with `A..Z` raises `UnsupportedIndexExtension`.  Returns the extensions and the part left
+unread.  `fuel ≥ d.length` suffices. -/
+def readExts : Nat → Bytes → R (List Ext × Bytes)
+  | 0, d => .ok ([], d)
   | fuel + 1, d =>
-    if d.length ≤ trailerLen then ([], d, [])           -- current_pos >= eof_pos - 20
+    if d.length ≤ trailerLen then .ok ([], d)            -- current_pos >= eof_pos - 20
     else
       let sig := d.take 4
-      if sig.length < 4 then ([], [], [])                 -- short signature: break at EOF
-      else if !sig.all isSigByte then ([], d, sig)        -- seek back 4; the 4 bytes stay hashed
+      if sig.length < 4 then .ok ([], [])                  -- short signature: break at EOF
       else
         match readL (d.drop 4) with
-        | .error _ => ([], [], [])                        -- short size field: break at EOF
+        | .error _ => .ok ([], [])                         -- short size field: break at EOF
         | .ok (size, d2) =>
-          if d2.length < size then ([], [], [])           -- short data: break at EOF
+          if d2.length < size then .ok ([], [])            -- short data: break at EOF
+          else if !knownSigs.contains sig && !firstIsOptional sig then .error .unsupportedExt
           else
-            let r := readExts fuel (d2.drop size)
-            (fromRaw sig (d2.take size) :: r.1, r.2.1, r.2.2)
+            match readExts fuel (d2.drop size) with
+            | .error e => .error e
+            | .ok (xs, r) => .ok (fromRaw sig (d2.take size) :: xs, r)
 
 def zeros20 : Bytes := List.replicate 20 0
 
-/-- `SHA1Reader.check_sha(allow_empty)`: `true` = accepted.  `hashed` is everything that went
-through `SHA1Reader.read`, `rest` the unread part of the file. -/
+/-- `SHA1Reader.check_sha(allow_empty)`: `true` = accepted: the stored trailer is the digest of what was
+read, or (`allow_empty`) it is exactly `N` zero bytes.  `hashed` is everything that went through
+`SHA1Reader.read`, `rest` the unread part of the file. -/
 def checkSha (H : Bytes → Bytes) (allowEmpty : Bool) (hashed rest : Bytes) : Bool :=
   let stored := rest.take shaReadLen
-  !(stored ≠ H hashed && (!allowEmpty || (stored.length = 20 && stored ≠ zeros20)))
+  !(stored ≠ H hashed && !(allowEmpty && stored = List.replicate shaZeroLen 0))
 
 /-- `read_index_dict_with_version` on a whole file: dictionary, version, extensions, unread rest and
-the bytes hashed so far. -/
+the bytes read (= hashed) so far. -/
 def readIndexDict (file : Bytes) : R (Dict × Nat × List Ext × Bytes × Bytes) :=
   match readHeader file with
   | .error e => .error e
@@ -463,9 +485,9 @@ def readIndexDict (file : Bytes) : R (Dict × Nat × List Ext × Bytes × Bytes)
     match readEntries v n [] [] d0 with
     | .error e => .error e
     | .ok (dict, d1) =>
-      let x := readExts d1.length d1
-      let rest := x.2.1
-      .ok (dict, v, x.1, rest, file.take (file.length - rest.length) ++ x.2.2)
+      match readExts d1.length d1 with
+      | .error e => .error e
+      | .ok (exts, rest) => .ok (dict, v, exts, rest, file.take (file.length - rest.length))
 
 /-- `Index(path)` on a file with these contents: `(entries in dict order, version, extensions)` or the
 exception (`ChecksumMismatch` from `check_sha(allow_empty=True)`). -/
@@ -508,6 +530,180 @@ def gitDecodeVarint : Bytes → Option (Nat × Bytes)
   | [] => none
   | c :: rest =>
     if c.toNat < 128 then some (c.toNat % 128, rest) else gitDecodeVarintAux (c.toNat % 128) rest
+
+/-! ## The code BEFORE the repair series (regression witnesses only)
+
+Frozen copies of the functions the `fix:` commits changed, as they were modelled (and tied to the code
+byte for byte) before: plain LEB128 varint, unmasked size and times, unsaturated name length, name of
+`flags & 0xFFF` bytes, upper-case-only extension signatures with the seek-back after hashing, and
+`check_sha` accepting any trailer that is not exactly 20 bytes.  Constants that the repairs changed are
+literals here; nothing in this namespace is tied to the current source. -/
+
+namespace Old
+
+def encodeVarintAux : Nat → Nat → Bytes
+  | 0, n => [UInt8.ofNat (n % (128))]
+  | fuel + 1, n =>
+    if n / 128 = 0 then [UInt8.ofNat (n % (128))]
+    else UInt8.ofNat (n % (128) + 128) :: encodeVarintAux fuel (n / 128)
+
+def encodeVarint (n : Nat) : Bytes := encodeVarintAux n n
+
+/-- The varint loop of `_decompress_path_from_stream`: one byte at a time, `ValueError` at EOF. -/
+def readVarintAux (shift acc : Nat) : Bytes → R (Nat × Bytes)
+  | [] => .error .value
+  | b :: rest =>
+    let acc' := acc + (b.toNat % (128)) * 2 ^ shift
+    if b.toNat / 128 % 2 = 0 then .ok (acc', rest)
+    else readVarintAux (shift + 7) acc' rest
+
+def readVarint (d : Bytes) : R (Nat × Bytes) := readVarintAux 0 0 d
+
+/-- `_compress_path(path, previous_path)`. -/
+def compressPath (path prev : Bytes) : Bytes :=
+  let c := commonPrefixLen path prev
+  encodeVarint (prev.length - c) ++ path.drop c ++ [0]
+
+/-- `_decompress_path_from_stream(f, previous_path)`: `(path, rest of stream)`. -/
+def decompressPathStream (prev d : Bytes) : R (Bytes × Bytes) :=
+  match readVarint d with
+  | .error e => .error e
+  | .ok (rm, d1) =>
+    match splitNul d1 with
+    | none => .error .value
+    | some (suffix, d2) =>
+      match rebuildPath prev rm suffix with
+      | .error e => .error e
+      | .ok p => .ok (p, d2)
+
+/-- `write_cache_time`. -/
+def packTime : Time → R Bytes
+  | .int t => do let a ← packL t; let b ← packL 0; pure (a ++ b)
+  | .pair s n => do let a ← packL s; let b ← packL n; pure (a ++ b)
+
+/-- The `struct.pack(">LLLLLL20sH", dev & …, ino & …, mode, uid, gid, size, sha, flags)` call. -/
+def packFixed (e : Entry) (flags : Nat) : R Bytes := do
+  let a ← packL (maskOpt devMask e.dev)
+  let b ← packL (maskOpt inoMask e.ino)
+  let c ← packL (maskOpt modeMask e.mode)
+  let d ← packL (maskOpt uidMask e.uid)
+  let f ← packL (maskOpt gidMask e.gid)
+  let g ← packL (e.size)
+  let h ← packH flags
+  pure (a ++ b ++ c ++ d ++ f ++ g ++ pack20 e.sha ++ h)
+
+/-- The on-disk flags word of `write_cache_entry`:
+`flags = len(entry.name) | (entry.flags & ~FLAG_NAMEMASK)`, then `|= FLAG_EXTENDED` when there are
+extended flags.  No saturation of the length at 0xFFF. -/
+def diskFlags (e : Entry) : Nat :=
+  let f := e.name.length ||| clearBits e.flags flagNameMask
+  if e.ext ≠ 0 then f ||| flagExtended else f
+
+/-- `write_cache_entry(f, entry, version, previous_path)`: the bytes written, or the exception. -/
+def writeCacheEntry (v : Nat) (prev : Bytes) (e : Entry) : R Bytes := do
+  let ct ← packTime e.ctime
+  let mt ← packTime e.mtime
+  let cpath := if v ≥ wCompressFrom then compressPath e.name prev else []
+  let flags := diskFlags e
+  if flags &&& flagExtended ≠ 0 ∧ v < wExtendedFrom then .error .assertion else
+  let fixed ← packFixed e flags
+  let xw ← if flags &&& flagExtended ≠ 0 then packH e.ext else pure []
+  if v ≥ wCompressFrom2 then pure (ct ++ mt ++ fixed ++ xw ++ cpath)
+  else
+    let body := ct ++ mt ++ fixed ++ xw ++ e.name
+    pure (body ++ List.replicate (padLenWrite body.length) 0)
+
+/-- `read_cache_entry(f, version, previous_path)` on the unread part `d` of the stream:
+the entry and the new unread part.  Short reads of the name and of the padding are silent, as in
+the code (`f.read(n)` returns what is there). -/
+def readCacheEntry (v : Nat) (prev : Bytes) (d : Bytes) : R (Entry × Bytes) := do
+  let (ct, d1) ← readTime d
+  let (mt, d2) ← readTime d1
+  let ((dev, ino, mode, uid, gid, size), sha, flags, d3) ← readFixed d2
+  let (ext, d4) ←
+    if flags &&& flagExtended ≠ 0 then
+      (if v < rExtendedFrom then .error .assertion else readH d3)
+    else pure (0, d3)
+  let mk (name : Bytes) : Entry :=
+    { name, ctime := ct, mtime := mt, dev, ino, mode, uid, gid, size, sha,
+      flags := clearBits flags flagNameMask, ext }
+  if v ≥ rCompressFrom then do
+    let (name, d5) ← decompressPathStream prev d4
+    if v < 4 then
+      let n := d.length - d5.length
+      pure (mk name, d5.drop (padLenRead n))
+    else pure (mk name, d5)
+  else
+    let k := flags &&& flagNameMask
+    let name := d4.take k
+    let d5 := d4.drop k
+    if v < 4 then
+      let n := d.length - d5.length
+      pure (mk name, d5.drop (padLenRead n))
+    else pure (mk name, d5)
+
+/-- The `for i in range(num_entries)` loop. -/
+def readEntries (v : Nat) : Nat → Bytes → Dict → Bytes → R (Dict × Bytes)
+  | 0, _, acc, d => .ok (acc, d)
+  | n + 1, prev, acc, d =>
+    match readCacheEntry v prev d with
+    | .error e => .error e
+    | .ok (e, d1) =>
+      match addEntry acc e with
+      | .error e => .error e
+      | .ok acc' => readEntries v n e.name acc' d1
+
+def isAllUpper (sig : Bytes) : Bool := sig.all isSigByte
+
+/-- The extension loop of `read_index_dict_with_version` on the unread part `d`.
+Returns the extensions, the part left unread, and the bytes that were read (hence hashed by
+`SHA1Reader.read`) and then un-read with `f.seek(-4, 1)`.  `fuel ≥ d.length` suffices. -/
+def readExts : Nat → Bytes → List Ext × Bytes × Bytes
+  | 0, d => ([], d, [])
+  | fuel + 1, d =>
+    if d.length ≤ trailerLen then ([], d, [])           -- current_pos >= eof_pos - 20
+    else
+      let sig := d.take 4
+      if sig.length < 4 then ([], [], [])                 -- short signature: break at EOF
+      else if !sig.all isSigByte then ([], d, sig)        -- seek back 4; the 4 bytes stay hashed
+      else
+        match readL (d.drop 4) with
+        | .error _ => ([], [], [])                        -- short size field: break at EOF
+        | .ok (size, d2) =>
+          if d2.length < size then ([], [], [])           -- short data: break at EOF
+          else
+            let r := readExts fuel (d2.drop size)
+            (fromRaw sig (d2.take size) :: r.1, r.2.1, r.2.2)
+
+
+/-- `SHA1Reader.check_sha(allow_empty)`: `true` = accepted.  `hashed` is everything that went
+through `SHA1Reader.read`, `rest` the unread part of the file. -/
+def checkSha (H : Bytes → Bytes) (allowEmpty : Bool) (hashed rest : Bytes) : Bool :=
+  let stored := rest.take shaReadLen
+  !(stored ≠ H hashed && (!allowEmpty || (stored.length = 20 && stored ≠ zeros20)))
+
+/-- `read_index_dict_with_version` on a whole file: dictionary, version, extensions, unread rest and
+the bytes hashed so far. -/
+def readIndexDict (file : Bytes) : R (Dict × Nat × List Ext × Bytes × Bytes) :=
+  match readHeader file with
+  | .error e => .error e
+  | .ok (v, n, d0) =>
+    match readEntries v n [] [] d0 with
+    | .error e => .error e
+    | .ok (dict, d1) =>
+      let x := readExts d1.length d1
+      let rest := x.2.1
+      .ok (dict, v, x.1, rest, file.take (file.length - rest.length) ++ x.2.2)
+
+/-- `Index(path)` on a file with these contents: `(entries in dict order, version, extensions)` or the
+exception (`ChecksumMismatch` from `check_sha(allow_empty=True)`). -/
+def indexRead (H : Bytes → Bytes) (file : Bytes) : R (Dict × Nat × List Ext) :=
+  match readIndexDict file with
+  | .error e => .error e
+  | .ok (dict, v, exts, rest, hashed) =>
+    if checkSha H allowEmpty hashed rest then .ok (dict, v, exts) else .error .checksum
+
+end Old
 
 /-! ## SHA-1 (driver side only; no theorem depends on its definition) -/
 
